@@ -74,3 +74,8 @@ CHECKS["C08"] = (
     "Part A enumerates every pattern of answered/unanswered transmissions and answer delays around the 2 s grid for retry budgets 1..4 on V2 and V3 and compares transmission count, exact virtual return time and outcome with a ten-line reference model of the retry loop (plus the device-level consequences). Part B injects every single fault and ordered pair of faults (silence, silence incl. handshake, error packet, garbage, peer close, refused and hanging connect, cancellation at each protocol phase) on fresh and established connections and requires the next clean exchange to succeed without user intervention. Part C searches longer sequences.",
     "Timing is exact because the harness owns the clock; handshake replies are prompt or never; cancellation points are drawn by protocol phase.",
     "DESIGN.md 3/C08")
+CHECKS["C07"] = (
+    "exploration", "model-based history generation (Hypothesis event lists incl. faults, clock jumps and phase-targeted cancellation) with a wire monitor built on the reference codec; long-session sweeps past 65 536 packets",
+    "Every byte the model V3 device receives on every connection is parsed with the independent codec and checked against four rules (nothing but token-bearing handshake requests before an answered handshake; every data packet under the latest completable session key of its own connection; counters start at 0, step by one and wrap only from 2^k-1; no data later than 12 h after the last handshake or later than the configured lifetime after connect). Histories mix sends, faults, explicit authentications with good/bad credentials, 12 h and lifetime jumps on the virtual clock and cancellations; long sessions cross the 12-bit wrap (4 200 exchanges quick, 66 000 thorough) and 70 000 protocol-level writes cross 65 536.",
+    "Expiry rules allow one exchange of slack (retransmissions of an exchange that began before expiry); re-handshaking early is allowed.",
+    "DESIGN.md 3/C07")
